@@ -11,6 +11,7 @@ import (
 	"net"
 	"os"
 	"runtime"
+	"runtime/debug"
 	"strconv"
 	"strings"
 	"sync"
@@ -113,6 +114,7 @@ type Options struct {
 	Prop           string // property under test, for messages
 	NoAutoConnack  bool
 	KeepFullEvents bool
+	AdoptFailNext  []byte // Persistence operation kinds ('S', 'D', 'L', 'l') which fail once during AdoptSession
 }
 
 // World is one process generation of a client together with its environment.
@@ -125,9 +127,10 @@ type World struct {
 	Log    []Event
 	Script []string // canonical rendering of the generated actions
 
-	Client *mqtt.Client
-	Warn   []error
-	Fatal  error
+	Client     *mqtt.Client
+	Warn       []error
+	Fatal      error
+	AdoptPanic string // a panic inside AdoptSession (recovered), with stack
 
 	Broker *refmqtt.Broker
 	Store  *Store
@@ -266,7 +269,19 @@ func New(t TB, o Options) *World {
 	cfg.Dialer = w.dialer
 	mqtt.VerifSetYield(w.yield)
 	if o.Adopt {
-		w.Client, w.Warn, w.Fatal = mqtt.AdoptSession(w.Store, &cfg)
+		for _, kind := range o.AdoptFailNext {
+			w.Store.FailNext(kind)
+		}
+		func() {
+			defer func() {
+				if p := recover(); p != nil {
+					w.AdoptPanic = fmt.Sprintf("%v\n%s", p, debug.Stack())
+					w.Client, w.Fatal = nil, fmt.Errorf("AdoptSession panicked: %v", p)
+				}
+			}()
+			w.Client, w.Warn, w.Fatal = mqtt.AdoptSession(w.Store, &cfg)
+		}()
+		w.Store.ClearFaults()
 	} else {
 		w.Client, w.Fatal = mqtt.InitSession(o.ClientID, w.Store, &cfg)
 	}
